@@ -11,6 +11,7 @@ the C output is also compared with the extracted model on the permuted value.
  (ii)  INTEGER sign-extension padding on -fwide-types builds (INTEGER_t)
  (iii) DEFAULT explicit vs absent (hand-written modules)
  (iv)  garbage in the unused bits of BIT STRING (in memory: the BER decoder masks them)
+ (iv') compare_struct of INTEGER_t follows the values (padding ignored, numeric order)
  (v)   decode-from-variant: long-form / indefinite lengths, constructed OCTET STRING,
        padded INTEGER contents, XER with white space and comments."""
 import sys, os
@@ -192,7 +193,6 @@ def model_layer(run, rng, tier, model):
             run.case(l)
             run.count("model_" + kind)
             r = parse_canon(o)
-            choiceref = C02.ref_to_choice(m, c["tn"]) or C02.uses_choice_ref(m, dict(m["defs"])[c["tn"]])
             base = {"module": m["text"], "type": c["tn"], "model_type": c["ts"], "value": c["vs"], "command_line": l, "c": o}
             if kind == "ref":
                 if r is None:
@@ -233,9 +233,6 @@ def model_layer(run, rng, tier, model):
                             e = uper_bytes(e)
                         okf = (got == e)
                     if not okf:
-                        if s == "cper" and choiceref and got.startswith("!"):
-                            run.known_finding("C02-choice-ref-no-per", l)
-                            continue
                         run.violation("correspondence:Rt.%s" % s, dict(base, what="C encoder output differs from the model on this representation", syntax=s, model=e),
                                       no_input=(rr[s] == got))
             # the property oracle: identical canonical output for every representation of the value
@@ -402,16 +399,8 @@ WIDE_FINDINGS = {
 
 def classify_hand(build, tn, kind, s, z):
     """known findings of the hand-written layer, by the narrowest description implemented here"""
-    if kind == "intpad" and build == "wide":
-        if s == "cper" and tn in ("I", "IS", "IE", "SI", "LI", "TI", "CI"):
-            # unconstrained / semi-constrained / out-of-root extensible INTEGER_t: buffer written verbatim
-            return "C06-uper-wide-integer-padding"
-        if s == "cxer" and wide_beyond_64(z):
-            return "C06-cxer-wide-integer-hexdump"
     if kind in ("default-bool-ff", "default-ext-bool-ff") and s in ("der", "cper", "coer"):
         return "C06-default-boolean-true-octet"
-    if kind.startswith("default-ext") and s == "cper":
-        return "C06-uper-extension-default"
     return None
 
 
@@ -427,7 +416,7 @@ def wide_beyond_64(z):
     return any(not (-2**63 <= x < 2**63) for x in zs)
 
 
-def hand_layer(run, rng, tier):
+def hand_layer(run, rng, tier, model):
     builds = {}
     for bname, opts in (("wide", ("-fcompound-names", "-fwide-types")), ("native", ("-fcompound-names",))):
         mods = [hand_module("WINT", WIDE_INT, WIDE_INT_TYPES), hand_module("DDEF", DEFAULTS, DEFAULTS_TYPES), hand_module("BBIT", BITS, BITS_TYPES)]
@@ -522,14 +511,6 @@ def hand_layer(run, rng, tier):
                     run.count("cmp_" + s)
                     if r[s] == rr[s]:
                         continue
-                    if s == "cper" and "bits:" in op and r.get("sites") != "0" and all(r[x] == rr[x] for x in ("der", "cxer")):
-                        run.known_finding("C06-uper-bitstring-unused-bits", l)
-                        continue
-                    if s == "coer" and "bits:" in op and r.get("sites") != "0" and all(r[x] == rr[x] for x in ("der", "cxer")) \
-                       and any(bl[0] > 0 and bl[-1] == 0 for bl in blobs) and "rev" not in op and "rot" not in op:
-                        # BIT_STRING_encode_oer masks the last octet only when its used bits are not all zero
-                        run.known_finding("C06-oer-bitstring-unused-bits", l)
-                        continue
                     if s == "coer" and tn == "TB" and ("rev" in op or "rot" in op) and all(r[x] == rr[x] for x in ("der", "cxer")):
                         run.known_finding("C06-oer-setof-order", l)
                         continue
@@ -537,6 +518,45 @@ def hand_layer(run, rng, tier):
                                                                  reference=rr[s], got=r[s]))
             if nsites == 0:
                 run.violation("harness:mutate", {"what": "the in-memory BIT STRING mutator changed nothing"}, no_input=True)
+        # ---- compare_struct on INTEGER_t: decided by the values, not by their representations
+        m = ms["WINT"]
+        if m.get("exe") and bname == "wide":
+            lines, meta = [], []
+            for (tn, kind, inputs, z) in gw:
+                if kind == "intpad" and tn in ("I", "IS", "IE", "SI", "LI", "TI", "CI"):
+                    for b in inputs[1:]:
+                        lines.append("cmp %s ber %s ber %s" % (tn, inputs[0].hex(), b.hex()))
+                        meta.append(("equal", 0, z))
+                        lines.append("cmp %s ber %s ber %s" % (tn, b.hex(), inputs[0].hex()))
+                        meta.append(("equal", 0, z))
+            pool = [0, 1, -1, 2, -2, 127, 128, -128, -129, 255, 256, -255, -256, -257, 32767, -32768, -32769, 65535, -65536, 2**63, -2**63, -2**63 - 1, 2**64, -(2**71) - 3, 2**80]
+            mlines = []
+            for _ in range(60 if tier == "quick" else 400):
+                a, b = rng.choice(pool), rng.choice(pool)
+                if rng.chance(1, 3):
+                    b = a + rng.choice([-1, 1, 256, -256])
+                ca, cb = ival(a, rng.below(3)), ival(b, rng.below(3))
+                lines.append("cmp I ber %s ber %s" % (uni(2, ca).hex(), uni(2, cb).hex()))
+                meta.append(("order", (a > b) - (a < b), (a, b)))
+                mlines.append("intcmp %s %s" % (ca.hex(), cb.hex()))
+            out = run_mod(run, m, lines, "C06-compare")
+            # faithfulness: the extracted model of INTEGER_compare on the same contents octets
+            rcm, mo, me = run_lines(model, mlines, timeout=300)
+            if rcm != 0 or len(mo) != len(mlines):
+                run.violation("model:driver", {"what": "model driver failed (intcmp)", "rc": rcm, "stderr": me[-1500:]}, no_input=True)
+                mo = []
+            for ml, r, l, o in zip(mlines, mo, lines[len(lines) - len(mlines):], out[len(out) - len(mlines):]):
+                run.case(ml)
+                run.count("model_intcmp")
+                if r != o.strip():
+                    run.violation("correspondence:CanonicalCompare.int_compare", {"what": "INTEGER_compare and its model disagree: C %s, model %s" % (o[:40], r[:40]),
+                                                                                 "command_line": ml, "c_command": l, "asn1c_options": bname}, no_input=True)
+            for (what, exp, z), l, o in zip(meta, lines, out):
+                run.case(bname + " " + l)
+                run.count("compare_" + what)
+                if o.strip() != str(exp):
+                    run.violation("oracle:compare(%s)" % what, {"module": m["text"], "asn1c_options": bname, "value": repr(z), "command_line": l, "c": o, "expected": str(exp),
+                                                              "what": "compare_struct of two INTEGER_t does not follow their values (equal values in different representations must compare equal, different values in the numeric order)"})
     return builds
 
 
@@ -552,7 +572,7 @@ def main(tier):
     try:
         model = model_build()
         mods = model_layer(run, rng, tier, model)
-        hand_layer(run, rng, tier)
+        hand_layer(run, rng, tier, model)
     except BuildError as e:
         run.violation("build", {"what": str(e)[-2500:]}, no_input=True)
         return run.finish("proof", (nthm, ndis))
@@ -560,6 +580,12 @@ def main(tier):
           "extraction: ExtrOcamlBasic only; OCaml 4.13.1", "lib/modgen.py (generator, effective tags), lib/c06_util.py (BER writer, permutations, XER variants, hand-written modules)",
           "harness/moddrv.c + harness/moddrv_c06.inc (in-memory mutator walks the structure through the descriptor tables); lib/modbuild.py; gcc + ASan/UBSan",
           "qsort is modelled as insertion sort: the theorems show the result does not depend on which sorting algorithm is used only where the order is antisymmetric on the keys"]
+    if os.environ.get("C06_DEBUG"):
+        import collections
+        cnt = collections.Counter((v["kind"], v.get("asn1c_options"), v.get("kind_of_group", v.get("type"))) for v in run.violations)
+        for k, n in sorted(cnt.items(), key=repr):
+            ex = [v for v in run.violations if (v["kind"], v.get("asn1c_options"), v.get("kind_of_group", v.get("type"))) == k][0]
+            log("DBG %d x %s | %s | %s" % (n, k, ex.get("command_line", "")[:160], ex.get("c", "")[:200]))
     return run.finish("proof", (nthm, ndis), trusted_base=tb,
                       checker_cmd="make -C /verif all && coqc -Q coq A1 coq/Props/Properties_C06.v",
                       extra_cov={"theorems": names, "modules": len(mods),
